@@ -601,7 +601,7 @@ impl CompactionManifest {
     compaction cover more than this many bytes.
     */
     fn expanded_compaction_byte_size_limit(&self) -> u64 {
-        self.max_output_file_size_bytes * 25
+        self.max_output_file_size_bytes.saturating_mul(25)
     }
 }
 
